@@ -379,8 +379,14 @@ def run_one(seed, index, tier):
            "log_digest": digest(log)}
     if res["class"] is not None:
         cls = res["class"]
-        mprog, mops = shrink(prog, sub_kind, sub_key, ops, cls)
-        final = run_history(mprog, sub_kind, sub_key, mops)
+        import sys
+        from simkit import runner
+        pre = {"class": cls, "replay": {"observed": res.get("observed")}}
+        if runner.matches_open_known(sys.modules[__name__], pre):
+            mprog, mops, final = prog, ops, res     # counted, not minimised
+        else:
+            mprog, mops = shrink(prog, sub_kind, sub_key, ops, cls)
+            final = run_history(mprog, sub_kind, sub_key, mops)
         rep = {"property": PROPERTY, "engine": ENGINE, "engine_version": 1,
                "seed": seed, "run_index": index, "violation_class": cls,
                "scenario": {"program": mprog, "subtree": sub_kind,
